@@ -105,6 +105,7 @@ class Run:
         self.notes: List[tuple] = []
         self.lcount: Dict[int, int] = {}
         self._applying: List[Req] = []
+        self._hook_into_terminal = False
         self.entered: List[tuple] = []      # (from_label, to_label, tick) from the public ENTERED_STATE hook
         self.samples: List[Any] = []        # state label after every tick / request
         self.cleanups = {'a': 0, 'b': 0}
@@ -124,8 +125,8 @@ class Run:
         p.add_state_event_callback(StateEventHook.ENTERED_STATE, self._entered)
         if any(r.where in (H_ENTERING, H_EXITING) for r in reqs):
             # requests issued from the public state-event callbacks, i.e. before the new state is in place
-            p.add_state_event_callback(StateEventHook.ENTERING_STATE, lambda *_a: self._hook(H_ENTERING))
-            p.add_state_event_callback(StateEventHook.EXITING_STATE, lambda *_a: self._hook(H_EXITING))
+            p.add_state_event_callback(StateEventHook.ENTERING_STATE, lambda _sm, _h, st: self._hook(H_ENTERING, st))
+            p.add_state_event_callback(StateEventHook.EXITING_STATE, lambda _sm, _h, st: self._hook(H_EXITING, st))
         p.add_cleanup(lambda: self._cleanup('a'))
         self.future = p.future()
         self.task = self.loop.create_task(p.step_until_terminated())
@@ -141,19 +142,28 @@ class Run:
         frm = from_state.LABEL if from_state is not None else None
         self.entered.append((frm, sm.state, self.tick))
 
-    def _hook(self, kind: int) -> None:
+    def _hook(self, kind: int, new_state: Any = None) -> None:
+        if self._applying:
+            # the transition is performed by a direct control call (kill/fail of a process that is not stepping): a
+            # further control call from inside it would re-enter transition_to, which plumpy forbids by assertion
+            return
+        self._hook_into_terminal = bool(new_state is not None and new_state.is_terminal())
         occ = self.lcount.get(kind, 0)
         self.lcount[kind] = occ + 1
-        for r in self.reqs:
-            if not r.applied and r.where == kind and r.pos == occ:
-                self.apply(r)
+        try:
+            for r in self.reqs:
+                if not r.applied and r.where == kind and r.pos == occ:
+                    self.apply(r)
+        finally:
+            self._hook_into_terminal = False
 
     def sample(self) -> None:
         p = self.proc
         st = p.state
         if st != self.samples[-1]:
             self.samples.append(st)
-        if not p.has_terminated() and p.future().done() and not p.future().cancelled():
+        if not p.has_terminated() and p.future().done() and not p.future().cancelled() and not self._hook_into_terminal:
+            # (in the middle of the transition into a terminal state the future is set before the state is in place)
             self.future_done_while_live = True   # (a future cancelled by its holder is the holder's doing)
         self.paused_log.append((self.tick, len(self.events), p.paused))
         if p.has_terminated() and self.terminal_tick is None:
@@ -165,6 +175,7 @@ class Run:
         p = self.proc
         r.applied = True
         r.tick = self.tick
+        r.seq = len(self.events)            # application order (listener/hook requests of one tick are not in index order)
         self.events.append(('req', r, len(programs.TRACE)))
         r.nested = []                       # requests issued (from a listener/hook) while this one is being carried out
         for outer in self._applying:
@@ -179,6 +190,7 @@ class Run:
             killing=getattr(p, '_killing', None) is not None,
             waiting_future_done=bool(wf is not None and wf.done()),
             in_listener=r.where != GAP,
+            into_terminal=bool(r.where in (H_ENTERING, H_EXITING) and self._hook_into_terminal),
             trace_len=len(programs.TRACE),
             n_entered=len(self.entered),
         )
